@@ -4,7 +4,7 @@ TU = "c05_wake_block.c"
 L_WAKE_ONE = {"myth_wake_one_from_queue": [dict(loop_id="0", assigns="to_wake, failed, g_deq_done, g_deq_null_seen",
                invariants="g_deq_done == 0 && g_pushed == 0 && g_bit_cleared == 0 && TH0.env == 0",
                symbol_map="to_wake,myth_wake_one_from_queue::1::to_wake;failed,myth_wake_one_from_queue::1::failed")]}
-L_WAKE_ALL = {"myth_wake_all_from_queue": [dict(loop_id="0", assigns="n, g_last_was_empty, g_any_woken",
+L_WAKE_ALL = {"myth_wake_all_from_queue": [dict(loop_id="0", assigns="n, g_last_was_empty, g_any_woken, g_wia_polls",
                invariants="g_last_was_empty == 0", symbol_map="n,myth_wake_all_from_queue::1::n")]}
 SPIN_INV = "((g_L == 0 || g_L == 1) && (g_l_mine == 0 || g_l_mine == 1) && (g_l_env == 0 || g_l_env == 1) && g_L == g_l_mine + g_l_env)"
 L_SPIN = {"myth_spin_lock_body": [dict(loop_id="0", assigns="L.locked, g_L, g_l_env, g_l_mine, failed",
